@@ -36,34 +36,28 @@ def queryEscape (bs : Bytes) : Bytes :=
 
 structure SesState where
   w : World := {}
-  js : List (Nat × Bytes) := []     -- the j parameter of JSONP sessions
 
-def report (w : World) : World × String :=
+/-- the observation line of a settled world (what `observe` then marks as seen) -/
+def reportLine (w : World) : String :=
   let parts : List String := w.evs
-  let w := { w with evs := [] }
   -- responses, in request order
-  let (w, parts) := (List.range w.reqs.size).foldl (fun (acc : World × List String) i =>
-    let (w, parts) := acc
+  let parts := (List.range w.reqs.size).foldl (fun (parts : List String) i =>
     let q := w.reqs.getD i default
-    let (w, parts) := if q.panicked ∧ !q.reported then
-        (w.setReq i fun q => { q with reported := true }, parts ++ [s!"PANIC:{i}"]) else (w, parts)
+    let parts := if q.panicked ∧ !q.reported then parts ++ [s!"PANIC:{i}"] else parts
     match q.resp with
     | some r =>
-      if q.reported then (w, parts) else
+      if q.reported then parts else
       let parts := parts ++ [s!"R:{i}:{r.status}:{r.ct}:{r.ce}:{hexMasked r.body}"]
       let parts := match q.consumed with | some n => parts ++ [s!"B:{i}:{n}"] | none => parts
-      let parts := if w.o.cookie ∨ w.o.hdr then parts ++ [s!"H:{i}:{hexMasked (q.cookie.getD [])}"] else parts
-      (w.setReq i fun q => { q with reported := true }, parts)
-    | none => (w, parts)) (w, parts)
+      if w.o.cookie ∨ w.o.hdr then parts ++ [s!"H:{i}:{hexMasked (q.cookie.getD [])}"] else parts
+    | none => parts) parts
   -- frames and ends, in connection order
-  let (w, parts) := (List.range w.conns.size).foldl (fun (acc : World × List String) i =>
-    let (w, parts) := acc
+  let parts := (List.range w.conns.size).foldl (fun (parts : List String) i =>
     let c := w.conns.getD i default
     let parts := parts ++ c.frames.map fun m => s!"F:{i}:{kindStr m.kind}:{hexMasked m.data}"
-    let (parts, rep) := match c.ended with
-      | some how => if c.endReported then (parts, true) else (parts ++ [s!"X:{i}:{how}"], true)
-      | none => (parts, false)
-    (w.setConn i fun c => { c with frames := [], endReported := rep }, parts)) (w, parts)
+    match c.ended with
+    | some how => if c.endReported then parts else parts ++ [s!"X:{i}:{how}"]
+    | none => parts) parts
   let parts := parts ++ (List.range w.socks.size).map fun i =>
     let s := w.sock i
     let trName := if (w.tr s.tr).isPolling then "polling" else "websocket"
@@ -72,7 +66,7 @@ def report (w : World) : World × String :=
   let parts := parts ++ [s!"G:{showInts reg}:{reg.length}"]
   let pend := (List.range w.reqs.size).filter fun i => !(w.reqs.getD i default).done
   let parts := parts ++ [s!"P:{showInts pend}"]
-  (w, " ".intercalate parts)
+  " ".intercalate parts
 
 /-- the harness's canonical order for the events of a server shutdown -/
 def shutdownKey (tok : String) : Nat :=
@@ -101,49 +95,42 @@ def parseOpts (f : List String) : Opts :=
       cookie := ck = "1", thr := if thr = "-" then 1024 else thr.toNat!, hdr := rest.head? = some "hdr" }
   | _ => {}
 
+/-- one line of the protocol as an operation of the model -/
+def parseOp (toks : List String) : Option Op :=
+  match toks with
+  | ["hs", "polling", eio, b64, j] => some (.hsPolling eio.toNat! (b64 = "1") (if j = "-" then none else some (unhex j)))
+  | ["hs", "websocket", eio, b64, _] => some (.hsWebsocket eio.toNat! (b64 = "1"))
+  | ["poll", s] => some (.poll (sidOf s) [])
+  | ["poll", s, ae] => some (.poll (sidOf s) (if ae = "-" ∨ ae = "initial" then [] else unhex ae))
+  | ["post", s, k, d, hex] => some (.post (sidOf s) (k = "b") (d = "1") (unhex hex) false)
+  | ["postj", s, hex] => some (.post (sidOf s) false true ([100, 61] ++ queryEscape (jsonpClientEscape (unhex hex))) true)
+  | ["abort", r] => some (.abort r.toNat!)
+  | ["ws", s, eio, b64] =>
+    if s = "-" then some (.hsWebsocket eio.toNat! (b64 = "1")) else some (.wsCandidate (sidOf s) eio.toNat! (b64 = "1"))
+  | ["frame", c, k, hex] => some (.frame c.toNat! (msgOf k hex))
+  | ["drop", c] => some (.drop c.toNat!)
+  | "send" :: s :: k :: hex :: cmp :: cb :: rest =>
+    let pre := match rest with
+      | [p] => if p = "-" then none else some (msgOf (p.take 1).toString (p.drop 1).toString)
+      | _ => none
+    some (.send (sidOf s) (msgOf k hex) (cmp = "1") (cb = "1") pre)
+  | ["close", s, d] => some (.close (sidOf s) (d = "1"))
+  | ["shutdown"] => some .shutdown
+  | ["adv", d] => some (.adv d.toNat!)
+  | _ => none
+
 def sesStep (st : SesState) (noSettle : Bool) (toks : List String) : SesState × String :=
   match toks with
-  | "cfg" :: rest => ({ w := { o := parseOpts rest } }, "ok")
+  | "cfg" :: rest => ({ w := init (parseOpts rest) }, "ok")
   | _ =>
-    let w := st.w
-    let (st, w, note) : SesState × World × String :=
-      match toks with
-      | ["hs", "polling", eio, b64, j] =>
-        let jb := if j = "-" then none else some (unhex j)
-        let st := match jb with | some b => { st with js := st.js ++ [(w.socks.size, b)] } | none => st
-        (st, hsPolling w eio.toNat! (b64 = "1") jb, "")
-      | ["hs", "websocket", eio, b64, _] => (st, hsWebsocket w eio.toNat! (b64 = "1"), "")
-      | ["poll", s] => (st, pollReq w (sidOf s) [], "")
-      | ["poll", s, ae] => (st, pollReq w (sidOf s) (if ae = "-" ∨ ae = "initial" then [] else unhex ae), "")
-      | ["post", s, k, d, hex] => (st, postReq w (sidOf s) (k = "b") (d = "1") (unhex hex), "")
-      | ["postj", s, hex] =>
-        (st, postReq w (sidOf s) false true ([100, 61] ++ queryEscape (jsonpClientEscape (unhex hex))) true, "")
-      | ["abort", r] => (st, abortReq w r.toNat!, "")
-      | ["ws", s, eio, b64] =>
-        if s = "-" then (st, hsWebsocket w eio.toNat! (b64 = "1"), "")
-        else (st, wsCandidate w (sidOf s) eio.toNat! (b64 = "1"), "")
-      | ["frame", c, k, hex] =>
-        let cn := w.conns.getD c.toNat! default
-        if cn.ended.isSome ∧ (cn.ended.getD "").startsWith "refused" then (st, w, "") else
-        let (w, ok) := wsFrame w c.toNat! (msgOf k hex)
-        let _ := ok
-        (st, w, "")
-      | ["drop", c] => (st, wsDrop w c.toNat!, "")
-      | "send" :: s :: k :: hex :: cmp :: cb :: rest =>
-        let pre := match rest with
-          | [p] => if p = "-" then none else some (msgOf (p.take 1).toString (p.drop 1).toString)
-          | _ => none
-        (st, appSend w (sidOf s) (msgOf k hex) (cmp = "1") (cb = "1") pre, "")
-      | ["close", s, d] => (st, appClose w (sidOf s) (d = "1"), "")
-      | ["shutdown"] => (st, shutdown w, "")
-      | ["adv", d] => (st, advance (d.toNat! * 4 + 64) w (w.now + d.toNat!), "")
-      | _ => (st, w, "")
+    let w := match parseOp toks with
+      | some op => step st.w op
+      | none => st.w
     if st.w.fault.isSome then (st, "-") else
     if w.fault.isSome then ({ st with w := w }, "fault:" ++ w.fault.getD "") else
     if noSettle then ({ st with w := w }, "-") else
-    let w := settle 10000 w
+    let w := step w .settle
     let w := if toks = ["shutdown"] then { w with evs := stableSortBy shutdownKey w.evs } else w
-    let (w, out) := report w
-    ({ st with w := w }, out ++ note)
+    ({ st with w := step w .observe }, reportLine w)
 
 end Driver
